@@ -121,7 +121,7 @@ class SymState:
     pass
 
 
-def build_router(ip, prog, fns, shard_bound):
+def build_router(ip, prog, fns, shard_bound, regex_limit=None):
     ip.call_function(fns['setup'], [])
     qr = ip.call_function(fns['new'], [])
     ps = getf(prog, qr, 'QueryRouter', 'pool_settings')
@@ -131,6 +131,10 @@ def build_router(ip, prog, fns, shard_bound):
     setf(prog, ps, 'PoolSettings', 'shards', st.shards)
     st.default_role = sym_option(ip, sym_enum(ip, 'Role', 'default_role', ('Primary', 'Replica')), 'default_role')
     setf(prog, ps, 'PoolSettings', 'default_role', st.default_role)
+    st.regex_limit = regex_limit
+    if regex_limit is not None:
+        # (the bound of the shard-COMMENT scan -- a per-pool option; the command language must not depend on it)
+        setf(prog, ps, 'PoolSettings', 'regex_search_limit', BV(64, regex_limit))
     st.pool_qpe = sym_bool(ip, 'pool_qpe')
     setf(prog, ps, 'PoolSettings', 'query_parser_enabled', st.pool_qpe)
     st.pool_pre = sym_bool(ip, 'pool_pre')
@@ -189,6 +193,8 @@ def model_state(m, st, qbytes):
         return conv(ev(p))
     settings = {'shards': ev(st.shards), 'default_role': evopt(st.default_role, role_name) or 'any',
                 'query_parser_enabled': bool(ev(st.pool_qpe)), 'primary_reads_enabled': bool(ev(st.pool_pre))}
+    if getattr(st, 'regex_limit', None) is not None:
+        settings['regex_search_limit'] = st.regex_limit
     pre = {}
     v = evopt(st.active_shard)
     if v is not None:
@@ -259,19 +265,19 @@ def exp_dis(w):
     return f
 
 
-def o2_semantics(chk, prog, n, shard_bound, template=None, prefix='C13/O2', only_cmds=None):
+def o2_semantics(chk, prog, n, shard_bound, template=None, prefix='C13/O2', only_cmds=None, regex_limit=None):
     """template: None (all n bytes symbolic) or (prefix, ndigits, suffix): concrete text around symbolic bytes."""
     if template is not None:
         n = len(template[0]) + template[1] + len(template[2])
     fns = {'setup': prog.lookup('QueryRouter::setup')[0], 'new': prog.lookup('QueryRouter::new')[0],
            'tec': prog.lookup('QueryRouter::try_execute_command')[0]}
     if template is None:
-        ob = chk.begin('O2-semantics-len%d' % n,
+        ob = chk.begin('O2-semantics-len%d' % n + ('-limit%d' % regex_limit if regex_limit is not None else ''),
                        'one command from an arbitrary router state, every ASCII query of length %d: recognised iff in the '
                        'language, state update and SHOW value as documented, no panic' % n,
                        {'query_length': n, 'shards': '1..%d' % shard_bound, 'pre_state': 'arbitrary'})
     else:
-        ob = chk.begin('O2-numeric-%s%d%s' % (template[0].replace(' ', '_'), template[1], template[2]),
+        ob = chk.begin('O2-numeric-%s%d%s' % (template[0].replace(' ', '_'), template[1], template[2]) + ('-limit%d' % regex_limit if regex_limit is not None else ''),
                        'one command from an arbitrary router state, query = %r + %d arbitrary ASCII bytes + %r: '
                        'recognised iff in the language, documented state update, no panic (numeric arguments of any length)'
                        % (template[0], template[1], template[2]),
@@ -290,7 +296,7 @@ def o2_semantics(chk, prog, n, shard_bound, template=None, prefix='C13/O2', only
     ip.divrem_hook = hook
 
     def harness(ip_):
-        qr, st = build_router(ip_, prog, fns, shard_bound)
+        qr, st = build_router(ip_, prog, fns, shard_bound, regex_limit)
         if template is None:
             qb = [ip_.fresh(8, 'q%d' % i) for i in range(n)]
         else:
@@ -501,6 +507,8 @@ def main(chk):
         'QueryRouter::try_execute_command is executed symbolically from MIR for EVERY ASCII query string of each length in the bound '
         'from an ARBITRARY router state (so command histories of any length are covered by one inductive step), and the result '
         'is compared with a reference state machine. Counterexamples are replayed natively.')
+    chk.explanation += (' The O2 obligations are repeated with regex_search_limit (the bound of the shard-comment scan, a per-pool option) shorter than the commands: the language '
+                        'does not depend on it.')
     chk.assumptions += [
         'ASCII alphabet (non-ASCII Unicode case folding of (?i) is outside the claim)',
         'regex crate semantics as modelled by mirsym/rx.py (validated against the real crate on concrete spellings each run)',
@@ -519,6 +527,11 @@ def main(chk):
     for d in digs:
         tasks.append((prog, 0, sb, ("SET SHARDING KEY TO ", d, "")))
         tasks.append((prog, 0, sb, ("set shard to '", d, "';")))
+    # the command language does not depend on regex_search_limit (the bound of the shard-comment scan, a per-pool option): the same obligations with
+    # a limit shorter than the commands
+    tasks.append((prog, 10, sb, None, 'C13/O2', None, 5))
+    tasks.append((prog, 14, sb, None, 'C13/O2', None, 5))
+    tasks.append((prog, 0, sb, ("SET SHARD TO ", 3, ""), 'C13/O2', None, 15))
     chk.parallel(o2_semantics, tasks)
     seen = set()
     for o in chk.obligations:
